@@ -277,6 +277,8 @@ func runC13(c *Ctx, r *Report) {
 	r.Doc("R-C13.6", "recursive read acquisition of one OrderedMap lock is only allowed because every in-place mutator of a map stored in a log field runs under that log's write lock (R-C13.1 mutate obligations) — otherwise a queued writer deadlocks the second RLock")
 	r.Doc("R-C13.7", "configuration fields (Storage, ID, AccessController, SortFn, io, concurrency) are never stored outside the constructor's composite literal")
 	r.Doc("R-C13.8", "every CanAppendContext literal is built while the lock of the log stored in it is held and flows only into a call argument")
+	r.Doc("R-C13.10", "the codec objects that Join's parallel validators and Append share are of concurrency-safe types (adopted from C18)")
+	importRules(c, r, "C18", []string{"R-C18.7"}, "R-C13.10", 0)
 	r.Doc("R-C13.9", "lock-order graph between lock classes is acyclic; no write re-acquisition of a held lock")
 
 	r.Doc("control", "engine positive/negative controls analysed on every run")
